@@ -70,9 +70,6 @@ F = {
              "ok 0:0=- 0:1=- 0:2=- 0:3=v:1 0:4=v:1 0:5=- 1:0=v:0") for p in ("C01", "C11")] +
            [("C15", "bound-not-subset", "cfg  | T0: anew 0; aclone 0 1; aclone 0 2; spawn 1; spawn 2; acount 0; acount 0; adrop 0; join 1; join 2 | T1: acount 1; agetmut 1; aunwrap 1; ifeq 1 err:0 1; adrop 1 | T2: acount 2; aunwrap 2; ifeq 1 err:0 1; adrop 2",
              "ok 0:0=- 0:1=- 0:2=- 0:3=- 0:4=- 0:5=v:3 0:6=v:3 0:7=v:0 0:8=- 0:9=- 1:0=v:1 1:1=v:1 1:2=ok:0 2:0=v:2 2:1=err:0 2:3=v:0")]),
- "F8": dict(cls="arc-drop-during-deadlock-abort",
-   what="the process aborts instead of reporting the deadlock: the deadlock panic unwinds block_on, whose loom Arc is dropped: Arc::drop -> ref_dec -> branch -> schedule with no active thread -> panic in a destructor (rt/arc.rs; cf. the guard in Mutex::release_lock)",
-   entries=[(p, "abort", "cfg x=1 f=1 | T0: blockon 0 1", "abort") for p in ("C20", "C06", "C05")]),
  "F20": dict(cls="join-before-tls-destructors",
    what="JoinHandle::join returns before the joined thread's thread-local destructors have run (the join notification is sent by the spawn wrapper, drop_locals runs afterwards in rt::thread_done): after join the effect of a destructor is not yet visible, which std rules out (thread.rs spawn_internal, rt/mod.rs thread_done)",
    entries=[("C17", "forbidden", "cfg tlsdtor=1 x=1 | T0: spawn 1; ld 0 rlx; join 1; ld 0 rlx | T1: tls 0",
@@ -80,9 +77,6 @@ F = {
  "F22": dict(cls="lazy-static-dropped-at-main-exit",
    what="lazy statics are dropped when the main closure returns, not at the end of the iteration: a thread that is still running and touches one afterwards panics 'attempted to access lazy_static during shutdown' (model.rs Builder::check, rt/lazy_static.rs Set::drop)",
    entries=[("C17", "badverdict", "cfg | T0: spawn 1 | T1: lazy 0", "lazyShutdown")]),
- "F12": dict(cls="raw-alloc-leak-abort",
-   what="a leaked loom::alloc::alloc block aborts the process (panic in a destructor while the failing iteration unwinds: the raw_allocations map is dropped outside the model) instead of the 'Allocation leaked' panic",
-   entries=[(p, "abort", "cfg  | T0: alloc 0", "abort") for p in ("C10", "C06")]),
  "F15": dict(cls="condvar-stale-token",
    what="a pending park token makes Condvar::wait return without a notification (rt/condvar.rs wait parks through rt::park)",
    entries=[(p, "forbidden", "cfg c=1 m=1 v=1 | T0: spawn 1; lock 0; cwr 0 1; unlock 0; cvone 0; join 1 | T1: unpark 1; lock 0; cvwait 0 0; crd 0; unlock 0",
@@ -99,6 +93,12 @@ F = {
 }
 
 FIXED = [
+ ("C20", "c00b711", "F8 process abort instead of the deadlock report: the deadlock panic unwinds block_on, whose loom Arc is dropped (Arc::drop -> ref_dec -> branch -> schedule with no active thread -> panic in a destructor); witness cfg x=1 f=1 | T0: blockon 0 1"),
+ ("C06", "c00b711", "F8 process abort instead of a panic to the caller when a loom Arc is dropped while a deadlock panic unwinds; witnesses cfg x=1 f=1 | T0: blockon 0 1 and cfg unwind=1 n=1 | T0: anew 0; nwait 0"),
+ ("C05", "c00b711", "F8 process abort instead of the deadlock report (block_on with nobody to wake it); witness cfg x=1 f=1 | T0: blockon 0 1"),
+ ("C06", "6d9d832", "F13 process abort instead of a panic to the caller when an RwLock guard is alive at a deadlock (release_read_lock / release_write_lock without the no-active-thread guard); witness cfg unwind=1 l=1 n=1 | T0: wr 0; nwait 0"),
+ ("C06", "8c1ee7c", "F12 process abort instead of a panic to the caller whenever an iteration fails while a loom::alloc::alloc block is live (Allocation::drop outside the execution context); witness cfg  | T0: alloc 0"),
+ ("C10", "8c1ee7c", "F12 a leaked loom::alloc::alloc block aborted the process instead of the 'Allocation leaked' panic; witness cfg  | T0: alloc 0"),
  ("C13", "b67ec75", "F14 exploration not reproducible across processes: a thread with two thread-locals whose destructors perform loom operations ran them in HashMap (RandomState) order; witness cfg tlsdtor=1 x=1 | T0: spawn 1; ld 0 rlx; join 1; ld 0 rlx | T1: tls 0; tls 1"),
  ("C17", "b67ec75", "F14 thread-local destructors ran in HashMap (RandomState) order: the same model was explored differently in different processes; witness cfg tlsdtor=1 x=1 | T0: spawn 1; ld 0 rlx; join 1; ld 0 rlx | T1: tls 0; tls 1"),
 ]
